@@ -9,22 +9,22 @@ props = {}
 for l in open('/verif/properties.jsonl'):
     d = json.loads(l); props[d['id']] = d
 hints = {
- "C01": "`this`, `super`, getters/proxies on receivers, await/yield operands, tagged templates, operands whose evaluation throws, re-entrancy (an operand that calls the same function again)",
- "C02": "what capturing into temporaries or re-printing does to rarely used syntax: `arguments`, closures over loop variables, labels, getters/setters, async generators, class private names, numeric separators, regex flags, BigInt, HTML comments",
- "C03": "which value the hook is handed as RESULT and as each OPERAND when an operand is itself rewritten, spread, missing, or when the method is reached through call/apply/computed key",
- "C04": "a syntactic position or statement kind (class static blocks, accessors, for-in/of heads, switch cases, labelled blocks, catch parameters, default exports, object methods, async arrows) in which an enabled operation silently stops being visited",
- "C05": "the meaning of each option value at its boundary: empty strings, casing, duplicates in csiMethods, a src listed twice with different dst, operator entries, unusual but legal names",
- "C06": "names: collisions with user identifiers that only resemble the prefix, prefixes with special characters, counters beyond one digit, nested functions and blocks, class bodies, switch/case scopes, loops with closures",
- "C07": "directives with escapes or line continuations, directives followed by a comment or on the same line as code, getters/setters/constructors/arrow bodies with directives, files starting with a BOM or hashbang",
- "C08": "operator precedence and automatic semicolon insertion around what the rewriter injects; `in` inside for-heads; object literal or function/class expression at statement start; `async`/`let`/`yield`/`await` used as identifiers; optional chains with `new`/templates",
- "C09": "what a mapping of INJECTED text points at and what the mapping of ORIGINAL text right after an injection points at (column arithmetic after multi-byte text, after the injected `let` line, inside multi-line templates)",
- "C10": "lookups that fall between tokens, at line ends, before the first token of a line, in lines without tokens; names; sourcesContent; a sourceRoot; an original map that itself has sourceless segments",
- "C11": "line 1 / column 1 boundaries, frames without a column, frames of native or anonymous code, Error.prepareStackTrace installed before or after the wrapper, Error.stackTraceLimit, errors thrown while preparing, the LRU cache of original maps",
- "C12": "inputs where something is normalised or partially transformed and then abandoned: cancelled transforms, nested functions where only an inner one matters, errors after a modification, the wasm/JS wrapper's handling of the flag",
- "C13": "resource limits: deeply nested expressions, very long operand chains, huge counters, unusual unicode (lone surrogates, astral identifiers), empty or enormous file names, invalid UTF-8 in maps, odd option types from JavaScript",
- "C14": "what counts as a literal worth reporting (length window in bytes vs characters, escapes, templates without substitutions, keys, directives, JSX-like text, import/export specifiers) and where its line/column points",
- "C15": "count and tags when one source operation yields several hooks or none (nested operations, optional-chain guards, hoisted targets, literal-only sums, cancelled files, several calls on one rewriter instance)",
- "C16": "anything that outlives one call: statics, lazily initialised tables, thread-locals, caches in the JavaScript wrapper, counters that are not reset, iteration order of hash maps, random prefixes",
+ "C01": "src/transform/call_expr_transform.rs and src/transform/prototype_transform.rs (receivers, `call`/`apply`, literal receivers, member chains), src/transform/template_transform.rs; getters that return different values on each read; operands that are `await`/`yield` expressions inside async functions and generators",
+ "C02": "src/transform/arrow_transform.rs and src/visitor/block_transform_visitor.rs: what is inserted into blocks and arrow bodies (labels, directives, declarations hoisting, `let` placement, async/generator arrows, arrows returning object literals)",
+ "C03": "src/transform/template_transform.rs and the tagged-template / String.raw handling; the hook's FIRST argument (the result expression) for templates, `+=`, optional calls; literal-only operands",
+ "C04": "src/visitor/csi_methods.rs lookups and src/transform/call_expr_transform.rs gates: which method names / receiver kinds / argument shapes make an enabled method call silently skipped (computed member names, string-literal keys, `super`, parenthesised callees, calls inside template substitutions)",
+ "C05": "src/lib_wasm.rs `to_config` and src/telemetry.rs verbosity parsing, src/util.rs random prefix, main.js constructor/`setLogger`: defaults and how each option value is interpreted",
+ "C06": "src/visitor/ident_provider.rs and src/visitor/visitor_util.rs: counter reset between statements, the set of registered names, the name format, the duplicate-name check (`Variable name duplicated`)",
+ "C07": "src/visitor/block_transform_visitor.rs insertion helpers for function bodies of every kind: constructors, getters/setters, object methods, class static blocks, async arrows with block bodies; a directive prologue followed by an empty statement or a parenthesised string",
+ "C08": "src/visitor/visitor_util.rs / src/util.rs helpers that build identifiers, parentheses and sequence expressions: places where the printer needs parentheses the tree does not carry (arrow/object/`in`/`??` mixing with `||`, exponent with unary, `new` with calls, optional chain after `new`)",
+ "C09": "src/rewriter.rs print_js and the spans given to injected nodes in src/transform/*.rs: what an injected identifier, parenthesis or call is mapped to; source file name in `sources`; `file` and `sourceRoot` of the emitted map",
+ "C10": "src/rewriter.rs extract_source_map / decode of data URLs (charset parameters, URL-encoded JSON, whitespace), relative-path resolution against the source file's folder, and `sources`/`sourcesContent`/`names` tables of the chained map",
+ "C11": "main.js (CacheRewriter.rewrite, cacheRewrittenSourceMap calls, getPrepareStackTrace) and js/stack-trace/index.js (WrappedCallSite, eval origins, the string path's regular expressions)",
+ "C12": "main.js NonCacheRewriter / CacheRewriter handling of the response (status strings, content substitution, errors thrown by the native rewriter) and src/lib_wasm.rs conversion of the result",
+ "C13": "src/util.rs (file_name, parse_source_map, base64/data-URL decoding, FileReader) and src/lib_wasm.rs option conversion: inputs that reach an `unwrap`, an index, a slice or an unbounded loop",
+ "C14": "src/visitor/literal_visitor.rs: which AST positions are visited (template literals, JSX-free object keys, class members, default values, tagged templates, `import()`/`require` arguments) and how an `ident` is attached",
+ "C15": "src/transform/transform_status.rs and src/telemetry.rs: how statuses and tags combine (Cancelled vs Modified, nested results, tag names for renamed methods, verbosity levels)",
+ "C16": "main.js caches (rewritten source maps, LRU of original maps), js/source-map/index.js module-level state, src/lib_wasm.rs Rewriter instance fields: anything one call can leave behind for the next",
 }
 for pid, d in sorted(props.items()):
     w = '%s/%s' % (root, pid)
